@@ -31,6 +31,7 @@ import (
 	"github.com/echovault/sugardb/internal"
 	"github.com/echovault/sugardb/internal/constants"
 	"github.com/echovault/sugardb/internal/eviction"
+	"github.com/echovault/sugardb/internal/verif"
 )
 
 // SwapDBs swaps every TCP client connection from database1 over to database2.
@@ -78,8 +79,10 @@ func (server *SugarDB) SwapDBs(database1, database2 int) {
 // Flush flushes all the data from the database at the specified index.
 // When -1 is passed, all the logical databases are cleared.
 func (server *SugarDB) Flush(database int) {
+	verif.Point("ks.flush.enter")
 	server.storeLock.Lock()
 	defer server.storeLock.Unlock()
+	verif.Point("ks.flush.locked")
 
 	server.keysWithExpiry.rwMutex.Lock()
 	defer server.keysWithExpiry.rwMutex.Unlock()
@@ -134,8 +137,10 @@ func (server *SugarDB) Flush(database int) {
 }
 
 func (server *SugarDB) keysExist(ctx context.Context, keys []string) map[string]bool {
+	verif.Point("ks.keysExist.enter")
 	server.storeLock.RLock()
 	defer server.storeLock.RUnlock()
+	verif.Point("ks.keysExist.locked")
 
 	database := ctx.Value("Database").(int)
 
@@ -154,8 +159,10 @@ func (server *SugarDB) keysExist(ctx context.Context, keys []string) map[string]
 }
 
 func (server *SugarDB) getExpiry(ctx context.Context, key string) time.Time {
+	verif.Point("ks.getExpiry.enter")
 	server.storeLock.RLock()
 	defer server.storeLock.RUnlock()
+	verif.Point("ks.getExpiry.locked")
 
 	database := ctx.Value("Database").(int)
 
@@ -168,8 +175,10 @@ func (server *SugarDB) getExpiry(ctx context.Context, key string) time.Time {
 }
 
 func (server *SugarDB) getValues(ctx context.Context, keys []string) map[string]interface{} {
+	verif.Point("ks.getValues.enter")
 	server.storeLock.Lock()
 	defer server.storeLock.Unlock()
+	verif.Point("ks.getValues.locked")
 
 	database := ctx.Value("Database").(int)
 
@@ -219,8 +228,10 @@ func (server *SugarDB) getValues(ctx context.Context, keys []string) map[string]
 }
 
 func (server *SugarDB) setValues(ctx context.Context, entries map[string]interface{}) error {
+	verif.Point("ks.setValues.enter")
 	server.storeLock.Lock()
 	defer server.storeLock.Unlock()
+	verif.Point("ks.setValues.locked")
 
 	if internal.IsMaxMemoryExceeded(server.memUsed, server.config.MaxMemory) && server.config.EvictionPolicy == constants.NoEviction {
 
@@ -263,6 +274,7 @@ func (server *SugarDB) setValues(ctx context.Context, entries map[string]interfa
 		if !server.isInCluster() {
 			server.snapshotEngine.IncrementChangeCount()
 		}
+		verif.Point("ks.setValues.key", key)
 	}
 
 	// Asynchronously update the keys in the cache.
@@ -279,8 +291,10 @@ func (server *SugarDB) setValues(ctx context.Context, entries map[string]interfa
 }
 
 func (server *SugarDB) setExpiry(ctx context.Context, key string, expireAt time.Time, touch bool) {
+	verif.Point("ks.setExpiry.enter")
 	server.storeLock.Lock()
 	defer server.storeLock.Unlock()
+	verif.Point("ks.setExpiry.locked")
 
 	database := ctx.Value("Database").(int)
 
@@ -371,6 +385,7 @@ func (server *SugarDB) getState() map[int]map[string]interface{} {
 			break
 		}
 	}
+	verif.Point("ks.getState.copy")
 	data := make(map[int]map[string]interface{})
 	for db, store := range server.store {
 		data[db] = make(map[string]interface{})
